@@ -40,6 +40,13 @@ ALL_MODEL: str = "#all#"
 ConstraintsBaseT = TypeVar("ConstraintsBaseT", bound="ConstraintsBase")
 
 
+def escape_docstring(text: str | None) -> str | None:
+    """Escape text that is rendered between triple double quotes."""
+    if not text:
+        return text
+    return text.replace("\\", "\\\\").replace('"""', '\\"\\"\\"').replace("\x00", "\\x00")
+
+
 class ConstraintsBase(_BaseModel):
     unique_items: Optional[bool] = Field(None, alias="uniqueItems")  # noqa: UP045
     _exclude_fields: ClassVar[set[str]] = {"has_constraints"}
@@ -164,7 +171,7 @@ class DataModelFieldBase(_BaseModel):
         if self.use_field_description:
             description = self.extras.get("description", None)
             if description is not None:
-                return f"{description}"
+                return escape_docstring(f"{description}")
         return None
 
     @property
@@ -432,7 +439,7 @@ class DataModel(TemplateBase, Nullable, ABC):
             decorators=self.decorators,
             base_class=self.base_class,
             methods=self.methods,
-            description=self.description,
+            description=escape_docstring(self.description),
             keyword_only=self.keyword_only,
             **self.extra_template_data,
         )
